@@ -4,4 +4,5 @@ import DoviModel.Proofs.HevcExtract
 import DoviModel.Proofs.HevcInject
 import DoviModel.Proofs.HevcRoundTrip
 import DoviModel.Proofs.HevcStage
+import DoviModel.Proofs.HevcOptMap
 /-! helper lemmas about the stream-command model (Model/Hevc.lean), by topic -/
